@@ -63,9 +63,9 @@ Proof.
     + intro H. apply check_add_classified in H. destruct H as [Hv [Hr|[Hr [Ha Hs]]]]; subst;
         repeat split; [left; reflexivity | right; simpl; split; assumption].
     + unfold check_set_m_error, usage1. destruct nf, tr; ifs; intro H; inversion H; subst; repeat split; left; reflexivity.
-    + unfold check_set_pvalue, usage1. ifs; intro H; inversion H; subst; repeat split; left; reflexivity.
-    + unfold check_set_tolerance, usage1. ifs; intro H; inversion H; subst; repeat split; left; reflexivity.
-    + unfold check_set_tolerance, usage1. ifs; intro H; inversion H; subst; repeat split; left; reflexivity.
+    + unfold check_set_pvalue, check_set_pvalue_with, usage1. ifs; intro H; inversion H; subst; repeat split; left; reflexivity.
+    + unfold check_set_et_tolerance, check_set_tolerance_with, usage1. ifs; intro H; inversion H; subst; repeat split; left; reflexivity.
+    + unfold check_set_p_tolerance, check_set_tolerance_with, usage1. ifs; intro H; inversion H; subst; repeat split; left; reflexivity.
     + unfold check_set_iteration, usage1. ifs; intro H; inversion H; subst; repeat split; left; reflexivity.
     + unfold check_solve, usage1. destruct (negb (v_fvalid s)).
       * intro H; inversion H; subst; repeat split; left; reflexivity.
@@ -96,9 +96,9 @@ Proof.
   - discriminate.
   - unfold check_add, usage1. ifs; discriminate.
   - unfold check_set_m_error, usage1. destruct nf, tr; ifs; discriminate.
-  - unfold check_set_pvalue, usage1. ifs; discriminate.
-  - unfold check_set_tolerance, usage1. ifs; discriminate.
-  - unfold check_set_tolerance, usage1. ifs; discriminate.
+  - unfold check_set_pvalue, check_set_pvalue_with, usage1. ifs; discriminate.
+  - unfold check_set_et_tolerance, check_set_tolerance_with, usage1. ifs; discriminate.
+  - unfold check_set_p_tolerance, check_set_tolerance_with, usage1. ifs; discriminate.
   - unfold check_set_iteration, usage1. ifs; discriminate.
   - unfold check_solve, usage1. destruct (negb (v_fvalid s)); [discriminate|]. destruct kernel; discriminate.
 Qed.
@@ -221,32 +221,36 @@ Qed.
 Lemma set_fv_null_refused_l : forall s rb, check_set_fv s None rb = Refuse VM1 (Via USAGE).
 Proof. reflexivity. Qed.
 
-(* scalar setters: exactly the documented ranges - except that NaN slips through the comparisons *)
-Lemma set_pvalue_iff_l : forall x,
-  check_set_pvalue x = Pass <-> (x = None \/ exists q, x = Some q /\ (0 < q)%Q /\ (q <= 1)%Q).
+(* scalar setters: exactly the documented ranges - and NaN when the range test has no isnan (every comparison is false) *)
+Lemma set_pvalue_iff_l : forall nan x,
+  check_set_pvalue_with nan x = Pass <-> ((nan = false /\ x = None) \/ exists q, x = Some q /\ (0 < q)%Q /\ (q <= 1)%Q).
 Proof.
-  intros [q|]; unfold check_set_pvalue, usage1, dle, dgt, dlt, d0, d1; simpl.
+  intros nan [q|]; unfold check_set_pvalue_with, usage1, dle, dgt, dlt, d0, d1, dnan; rewrite ?andb_false_r; simpl.
   - destruct (Qle_bool q 0) eqn:A; simpl.
-    + split; [discriminate|]. intros [H|[q' [E [H1 _]]]]; [discriminate|]. inversion E; subst.
+    + split; [discriminate|]. intros [[_ H]|[q' [E [H1 _]]]]; [discriminate|]. inversion E; subst.
       apply Qle_bool_iff in A. exfalso. apply (Qlt_not_le _ _ H1 A).
     + destruct (Qle_bool q 1) eqn:B; simpl.
       * split; [|reflexivity]. intros _. right. exists q. repeat split.
         -- apply Qnot_le_lt. intro H. apply Qle_bool_iff in H. congruence.
         -- apply Qle_bool_iff. exact B.
-      * split; [discriminate|]. intros [H|[q' [E [_ H2]]]]; [discriminate|]. inversion E; subst.
+      * split; [discriminate|]. intros [[_ H]|[q' [E [_ H2]]]]; [discriminate|]. inversion E; subst.
         apply Qle_bool_iff in H2. congruence.
-  - split; [intros _; left; reflexivity | reflexivity].
+  - destruct nan; simpl.
+    + split; [discriminate|]. intros [[H _]|[q' [E _]]]; discriminate.
+    + split; [intros _; left; split; reflexivity | reflexivity].
 Qed.
 
-Lemma set_tolerance_iff_l : forall x,
-  check_set_tolerance x = Pass <-> (x = None \/ exists q, x = Some q /\ (0 <= q)%Q).
+Lemma set_tolerance_iff_l : forall nan x,
+  check_set_tolerance_with nan x = Pass <-> ((nan = false /\ x = None) \/ exists q, x = Some q /\ (0 <= q)%Q).
 Proof.
-  intros [q|]; unfold check_set_tolerance, usage1, dlt, d0; simpl.
+  intros nan [q|]; unfold check_set_tolerance_with, usage1, dlt, d0, dnan; rewrite ?andb_false_r; simpl.
   - destruct (Qle_bool 0 q) eqn:A; simpl.
     + split; [|reflexivity]. intros _. right. exists q. split; [reflexivity | apply Qle_bool_iff; exact A].
-    + split; [discriminate|]. intros [H|[q' [E H1]]]; [discriminate|]. inversion E; subst.
+    + split; [discriminate|]. intros [[_ H]|[q' [E H1]]]; [discriminate|]. inversion E; subst.
       apply Qle_bool_iff in H1. congruence.
-  - split; [intros _; left; reflexivity | reflexivity].
+  - destruct nan; simpl.
+    + split; [discriminate|]. intros [[H _]|[q' [E _]]]; discriminate.
+    + split; [intros _; left; split; reflexivity | reflexivity].
 Qed.
 
 Lemma set_iteration_iff_l : forall n, check_set_iteration n = Pass <-> 1 <= n.
